@@ -39,6 +39,7 @@ class Seg(sym.Abstract):
         self.name = name
         self.cond = cond  # filter of a comprehension (node -> truth)
         self._n = None
+        self.owner = None  # the node whose children these are (if known)
 
     def length(self):
         if self.cond is None:
@@ -155,8 +156,10 @@ def as_abs(eng, x):
     if isinstance(x, AbsList):
         return x
     if isinstance(x, nm.STuple):
-        return AbsList(eng, [Seg(x.seq_term(), None, False,
-                                 x.owner.tag['name'] + '_kid')])
+        sg = Seg(x.seq_term(), None, False, x.owner.tag['name'] + '_kid')
+        if x.start == 0:
+            sg.owner = x.owner
+        return AbsList(eng, [sg])
     if isinstance(x, RevView):
         a = as_abs(eng, x.lst)
         parts = []
@@ -164,8 +167,10 @@ def as_abs(eng, x):
             if isinstance(part, tuple):
                 parts.append(part)
             elif isinstance(part, Seg):
-                parts.append(Seg(part.seq, part.wrap, not part.rev,
-                                 part.name, part.cond))
+                sg2 = Seg(part.seq, part.wrap, not part.rev, part.name,
+                          part.cond)
+                sg2.owner = part.owner
+                parts.append(sg2)
             else:
                 raise Unsupported('reversed() of an opaque list')
         return AbsList(eng, parts)
@@ -348,9 +353,10 @@ def install(eng):
             elif isinstance(part, Seg):
                 if part.cond is not None and g.ifs:
                     return NotImplemented
-                parts.append(Seg(part.seq, compose(part.wrap), part.rev,
-                                 part.name,
-                                 make_cond(part.wrap) or part.cond))
+                sg2 = Seg(part.seq, compose(part.wrap), part.rev,
+                          part.name, make_cond(part.wrap) or part.cond)
+                sg2.owner = part.owner
+                parts.append(sg2)
             else:
                 return NotImplemented
         return AbsList(e, parts)
